@@ -67,12 +67,17 @@ def run(cmd, cwd=None, inp=None, timeout=None, env=None):
 # ---------------------------------------------------------------- build steps
 
 def step_extract():
+    ej = os.path.join(CACHE, "extract.json")
     with Lock("extract"):
+        t_start = time.time()
         rc, out = run([sys.executable, os.path.join(HERE, "extract.py")])
-    try:
-        info = json.load(open(os.path.join(CACHE, "extract.json")))
-    except Exception:
-        info = {"failures": {"extract.py": out[-2000:]}, "tables": {}}
+        try:
+            # a crashed translator must not leave the previous run's tables standing in for this one
+            if os.path.getmtime(ej) < t_start - 2:
+                raise RuntimeError("extract.json not rewritten (extract.py exit %d)" % rc)
+            info = json.load(open(ej))
+        except Exception as e:
+            info = {"failures": {"extract.py": "%r\n%s" % (e, out[-2000:])}, "tables": {}}
     return info
 
 
